@@ -1,7 +1,8 @@
 """C14 — compiled quantum circuits implement the circuit's unitary.
 
 proof:          lean/BMV/Props/C14.lean (layer matrix = product of the gate embeddings for every layer
-                shape on n <= 5 qubits, product of the emitted matrices = Uref, simulation = column)
+                shape on n <= 5 qubits, product of the emitted matrices = Uref, simulation = column,
+                every emitted matrix unitary; every gate of the supported set exactly unitary over C)
 correspondence: harness/cmd/c14 builds bmline.BasmBody values, calls the real QasmToBmMatrices,
                 MatrixProductComplex and RunSoftwareSimulation and dumps every matrix; lean/Oracle/C14.lean
                 evaluates the reference (layerRef/embed/Uref) and BOTH plan models (the code as pinned =
@@ -202,7 +203,7 @@ def run(rep):
         "input_distribution": stats,
         "impl_follows_model": stats["follows"],
         "unmodelled": ["nextop/zero/input lines", "repeated or undeclared qubit arguments", "hardware/HLS back-ends",
-                       "unitarity as a theorem (checked numerically per emitted matrix only)"],
+                       "layer theorem for n > 5 (the certificate is an enumeration up to 5 qubits)"],
     })
 
     known_listed = [f for f in vlib.load_known_findings(PROP) if f.get("id") == KNOWN_ID]
